@@ -304,8 +304,10 @@ def _enclosing_funcs(ix):
     return out
 
 
-def rule_e(ctx, ix):
-    """Indices of pixel axes and of world axes are not confused when the dependence table is consulted."""
+def rule_e(ctx, ix, other_readers=False):
+    """Indices of pixel axes and of world axes are not confused when the dependence table is consulted.
+    ``other_readers``: also examine functions outside the helper module that read the table themselves (they decide which axes a
+    request depends on - the concern of the buffer caches, C16 - not a coordinate value)."""
     from ..roles import ModuleRoles
     R = 'C15.e'
     ctx.describe(R, 'index roles of the dependence table: parameters are used in the role their callers pass, results in the role '
@@ -434,7 +436,7 @@ def rule_e(ctx, ix):
         raise AnalysisError('C15.e: only %d call sites of dependent_axes found' % nsites)
     # (iii') readers of the dependence table outside the helper module (a local shortcut instead of dependent_axes): the index
     # they select a row / column with must be of that kind at that place
-    for construct, node, m in _enclosing_funcs(ix):
+    for construct, node, m in (_enclosing_funcs(ix) if other_readers else ()):
         if m.name in (HELPERS, 'glue.core.coordinates') or '.tests' in m.name:
             continue
         if not any(isinstance(x, ast.Attribute) and x.attr == 'axis_correlation_matrix' for x in ast.walk(node)):
